@@ -10,50 +10,114 @@ func prop(id string, rules []string, explanation, notDecided string) *PropDef {
 	return pd
 }
 
+func keyHas(subs ...string) func(string) bool {
+	return func(k string) bool {
+		for _, s := range subs {
+			if strings.Contains(k, s) {
+				return true
+			}
+		}
+		return false
+	}
+}
+
 func init() {
+	prop("C01", []string{"FILTERED", "MGETSORT", "NOROWDROP", "GETNIL", "BYTESFRESH", "DISPATCH", "TWINPRIM", "PRIMWIRE", "OPMAPS", "ASTIMMUT"},
+		"Structural necessary conditions of C01, for every access path and both iteration modes: FILTERED (a pair leaves a scan only under the true result of the full filter applied to that same pair), NOROWDROP (no loop over a fetched batch drops already-consumed rows), MGETSORT (point reads are returned in sorted key order), GETNIL (a stored pair with an empty value is a pair), BYTESFRESH (evaluation never appends into memory it did not allocate, so stored values come back unmodified), DISPATCH/TWINPRIM/PRIMWIRE/OPMAPS (each operator the user writes is routed, in both modes, to the Go primitive the documentation names, with the same operator literal and operand order; conversion/string functions reach their documented primitives), ASTIMMUT (evaluation does not mutate the expression tree, so repetitions agree).",
+		"The end-to-end row set needs evaluation of predicates on values; duplicates from repeated/overlapping IN literals and literal-on-the-left comparisons are not structurally decidable (DESIGN.md §6).")
+	propTable["C01"].KeyFilter["NOROWDROP"] = keyHas("ScanPlan", "MultiGetPlan", "ProjectionPlan")
+
+	prop("C02", []string{"PLANMAP", "ROUTE", "NARROWONLYKEY", "SELECTMINMAX", "ROLECHAIN", "FILTERED", "RMGUARD", "NOROWDROP", "GETNIL"},
+		"Structural necessary conditions of C02: ROUTE (an operator reaches only the region handler its executor semantics justify; anything else is FULL), NARROWONLYKEY (a narrowing region only for atoms on `key`, with bounds taken from the atom's literals), SELECTMINMAX (OR falls back to the wider operand), PLANMAP (scan kinds map to the matching plan, ill-formed cases to the full scan, and the access path is not replaced afterwards), ROLECHAIN (start/end/prefix reach Seek and the stop tests in the right roles, inclusive end, nil-guarded), FILTERED (over-approximated regions are harmless because every pair is filtered), RMGUARD (DELETE drops the filter only for pure key sets), NOROWDROP/GETNIL (no consumed row or empty-valued pair is lost on the narrowed paths).",
+		"The interval case analysis of union*/intersection*/inRange and the side of the literal ('b' > key) depend on order relations among literals (DESIGN.md §6).")
+	propTable["C02"].KeyFilter["SELECTMINMAX"] = keyHas("|OR|")
+	propTable["C02"].KeyFilter["NOROWDROP"] = keyHas("ScanPlan", "MultiGetPlan")
+
+	prop("C03", []string{"NOROWDROP", "CONSUMED", "FETCHLOOPEND", "CACHECOPY", "ADJUSTCALL", "ARITY", "LISTCOVER", "BODYKIND", "ASTIMMUT", "DISPATCH", "TWINPRIM", "LIMITGATE", "ERRPROP"},
+		"Structural necessary conditions of C03 (agreement of the row and batch twins): DISPATCH/TWINPRIM (both modes route every operator to corresponding helpers reaching the same primitives with the same literals), BODYKIND (row and vector bodies box the same kinds), ARITY (both modes apply both arity tests), LISTCOVER (both modes handle the same list representations), NOROWDROP/CONSUMED/LIMITGATE/FETCHLOOPEND (batch loops neither drop consumed rows, nor emit skipped ones, nor bypass the limit, nor spin), CACHECOPY/ADJUSTCALL/ASTIMMUT (the chunk cache and the tree are not corrupted by in-place vector operators), ERRPROP on both twins of every plan.",
+		"Equality of computed values and the refill arithmetic beyond these clauses need execution.")
+
+	prop("C04", []string{"FOLDKIND", "FOLDERR", "REORDERGUARD", "BODYKIND"},
+		"Structural necessary conditions of C04: FOLDKIND (a folded literal node has the kind of the value it was folded from and is built from the typed value, not from text), FOLDERR (folding happens only when evaluation succeeded), REORDERGUARD (re-association only for + and * chains with the same operator inside and outside), BODYKIND (folded function calls box the kind their registry row declares).",
+		"Numeric equality of folded and unfolded evaluation and the truth table of the Boolean simplifier need evaluation (DESIGN.md §6).")
+
+	prop("C05", []string{"ADJUSTCALL", "CACHECOPY", "ROWCACHE", "CHUNKKEY", "LOCKSTEP", "LISTCOVER", "ASTIMMUT"},
+		"Structural necessary conditions of C05: ROWCACHE (no per-row cache entry written for one row can be read for another: every loop feeding different rows to an evaluator through one context clears it per row or passes no context), ADJUSTCALL (the chunk cache is re-indexed by exactly the rows that passed, with a cumulative index), CACHECOPY (cache entries never alias evaluation results), CHUNKKEY (chunk cache keys frame alias name and first key), LOCKSTEP (one column per announced name), LISTCOVER(project) (row-mode projection lets through every column kind).",
+		"Equality with the alias-expanded query needs execution.")
+	propTable["C05"].KeyFilter["LISTCOVER"] = keyHas("|project|")
+
+	prop("C06", []string{"ASSERT", "ARITY", "DIVGUARD", "BODYKIND", "FETCHLOOPEND", "ADJUSTCALL", "USERIDX", "ERRPROP"},
+		"The panic and non-termination classes whose absence is visible in the shape of the code: ASSERT (no unchecked type assertion without a dominating test or a checked side condition), ARITY (no body is called with fewer arguments than it indexes), DIVGUARD (integer division guarded), USERIDX (slices/indexes driven by user numbers or error offsets are bounded against the sliced value's length and ordered), BODYKIND (the constant folder's assertions are safe), ADJUSTCALL (chunk cache indexes stay in range), FETCHLOOPEND (every fetch loop stops at end of stream), ERRPROP (storage errors are values).",
+		"General index bounds, nil dereference, alias cycles (stack exhaustion) and termination of other loops are runtime quantities (DESIGN.md §6).")
+
+	prop("C07", []string{"ASSERT", "CMPDIR", "ORDERELIDE", "ORDERDEFAULT", "DRAINALL", "MGETSORT", "NOROWDROP"},
+		"Structural necessary conditions of C07: ASSERT on the comparators (ORDER BY cannot crash on mixed kinds), CMPDIR (each comparator returns -1 exactly on l<r, resp. l>r when reversed, compares integers as integers, and Less maps negative to true with the heap's operand order), ORDERELIDE (the sort is skipped only for a lone `order by key asc` without aggregates, relying on MGETSORT/cursor order), ORDERDEFAULT (each order field gets its own direction, ASC by default), DRAINALL/NOROWDROP (every child row is pushed exactly once and popped while pos < total).",
+		"That the comparator is a total order per type and that heap order equals sorted order need execution.")
+	propTable["C07"].KeyFilter["ASSERT"] = keyHas("orderColumnsRow", "FinalOrderPlan")
+	propTable["C07"].KeyFilter["NOROWDROP"] = keyHas("FinalOrderPlan")
+
+	prop("C08", []string{"CONSUMED", "LIMITGATE", "LIMITMAP", "NOROWDROP", "LIMITWRAP", "RMGUARD", "FETCHLOOPEND"},
+		"Structural necessary conditions of C08: LIMITMAP (offset and count are never swapped between the parser and the three consumers), CONSUMED (rows counted as skipped are never emitted; the remaining offset is recomputed per batch; the partial batch continues at batch[remaining:]), NOROWDROP (rows are dropped only on the count condition), LIMITGATE (the pushed-down limit is bypassed only when absent), LIMITWRAP/RMGUARD (DELETE ... LIMIT limits the raw pairs and never takes the key-removal shortcut), FETCHLOOPEND (skipping past the end terminates).",
+		"The count arithmetic over refills is a runtime quantity.")
+	propTable["C08"].KeyFilter["RMGUARD"] = keyHas("no-limit")
+
+	prop("C09", []string{"AGGRSEM", "CLONEFRESH", "ROWCLONE", "KEYFRAME", "RESULTIDX", "PRIMWIRE", "ARITY", "ROWCACHE"},
+		"Structural necessary conditions of C09: KEYFRAME (group keys frame their components, so distinct tuples never collide), ROWCLONE/CLONEFRESH (each group owns fresh accumulators), AGGRSEM (count/sum/avg/min/max update and complete according to their definitions, integers compared as integers), RESULTIDX (each aggregate's result is substituted into its own call node), PRIMWIRE (each aggregate name has its own constructor and accumulator type), ARITY (constructors index only guaranteed arguments), ROWCACHE (values cached for one pair are not reused for another while grouping).",
+		"The arithmetic of the accumulators on concrete values needs execution.")
+	propTable["C09"].KeyFilter["PRIMWIRE"] = keyHas("aggr")
+	propTable["C09"].KeyFilter["ROWCACHE"] = keyHas("AggregatePlan")
+
+	prop("C10", []string{"LISTCOVER", "BODYKIND", "PRIMWIRE", "ARITY", "ASTIMMUT", "TWINPRIM"},
+		"Structural necessary conditions of C10: PRIMWIRE (each documented function is registered under its name and both bodies reach the documented primitive on the text argument, base 10, with the length check for distances; no two names share a body except the documented aliases), BODYKIND (bodies return their declared kinds, identically in both modes), LISTCOVER (every list consumer handles every list representation, in both modes), ARITY, ASTIMMUT (constant arguments behave like row-dependent ones: no state is kept in the tree), TWINPRIM (row and vector bodies reach the same primitives).",
+		"The computed values themselves need execution.")
+
+	prop("C11", []string{"RMGUARD", "DELKEYS", "MUTSITE", "CHILDVISIT", "LIMITWRAP", "LIMITMAP", "ERRPROP", "NOROWDROP", "CONSUMED"},
+		"Structural necessary conditions of C11: DELKEYS (BatchDelete receives exactly the keys of the rows fetched in that iteration), MUTSITE(e) (DELETE issues no Put), RMGUARD with CHILDVISIT(Walk) (direct key removal only without LIMIT and without any AND anywhere in the filter; the walk sees every node), LIMITWRAP/LIMITMAP/CONSUMED/NOROWDROP (the limit is applied to the raw pairs, exactly), ERRPROP in execute.",
+		"Which keys the filter selects is C01/C02/C08.")
+	propTable["C11"].KeyFilter["MUTSITE"] = keyHas("MUTSITE|e|", "MUTSITE|a|")
+	propTable["C11"].KeyFilter["CHILDVISIT"] = keyHas("|Walk|")
+	propTable["C11"].KeyFilter["ERRPROP"] = keyHas("DeletePlan", "LimitPlan")
+	propTable["C11"].KeyFilter["NOROWDROP"] = keyHas("DeletePlan", "(*LimitPlan)")
+	propTable["C11"].KeyFilter["CONSUMED"] = keyHas("(*LimitPlan)")
+	propTable["C11"].KeyFilter["LIMITMAP"] = keyHas("LimitPlan", "parse|")
+
+	prop("C12", []string{"EXECONCE", "WRITEONCE", "PUTKEYFLOW", "KWFLAGS", "MUTSITE", "CHILDVISIT"},
+		"Structural necessary conditions of C12: EXECONCE (writes happen only while executed == false, which is set on every path after they start and reset only by Init), WRITEONCE (one storage write per PUT/REMOVE, outside any loop, with every expression evaluated before it), PUTKEYFLOW (each value expression sees its own pair's evaluated key; pairs reach BatchPut in statement order, untouched by any other call), KWFLAGS and CHILDVISIT(Validate) (the static restrictions are wired and every key/value expression is checked), MUTSITE(e) (PUT only puts, REMOVE only deletes).",
+		"The store contents after the write depend on the caller's Storage.")
+	propTable["C12"].KeyFilter["MUTSITE"] = keyHas("MUTSITE|e|", "MUTSITE|c|")
+	propTable["C12"].KeyFilter["CHILDVISIT"] = keyHas("Validate")
+
 	prop("C13", []string{"MSTOR", "MUTSITE", "PARSEFIRST", "ERRPROP"},
 		"Structural necessary conditions of C13, decided for every function, path and call site of the package: MUTSITE (mutating Storage calls exist only inside the three writer plans; the closure of the SELECT builder with all methods of every plan type it can build has none; planning has none; parsing/checking reach no storage call at all), PARSEFIRST (no storage-reaching call before the parse/validate error test succeeded), ERRPROP (every error produced by a storage-reaching call is examined on every path and returned - itself or wrapped - on every failure path, with no further storage-reaching call and no loop continuation).",
 		"Nothing structural is left out; 'returns that error' is decided as 'the returned error is data-derived from it'. The caller's Storage implementation is outside the analysis.")
-}
 
-func init() {
-	prop("C14", []string{"CHILDVISIT", "FUNCREG", "WHEREBOOL", "KWFLAGS", "MUTSITE", "PARSEFIRST"},
-		"Structural necessary conditions of C14: CHILDVISIT (every Expression node's Check visits every child and returns the child's error, so a fault is seen at every syntactic position; every statement's Validate reaches Check on each of its expressions and the parser returns the validation error), FUNCREG (the function-call Check consults both registries and the arity), WHEREBOOL (SELECT and DELETE both type-check the WHERE expression and require a Boolean result), KWFLAGS (PUT forbids `value`, REMOVE forbids `key`/`value`, and FieldExpr.Check enforces the flags), MUTSITE(d)+PARSEFIRST (rejection happens before any storage access: parsing/checking reach no storage call; no storage-reaching call precedes the parse/validate error test).",
-		"Completeness and soundness of the operand typing rules themselves (accept exactly the well-typed statements; no operand-type error at run time) beyond rule ADMIT are value/type-level facts not decided here.")
-	propTable["C14"].KeyFilter["MUTSITE"] = func(k string) bool { return strings.HasPrefix(k, "MUTSITE|d|") }
-}
+	prop("C14", []string{"CHILDVISIT", "FUNCREG", "WHEREBOOL", "KWFLAGS", "MUTSITE", "PARSEFIRST", "LISTCOVER", "NOTWRAP"},
+		"Structural necessary conditions of C14: CHILDVISIT (every Expression node's Check visits every child before any success return and returns the child's error, so a fault is seen at every syntactic position; every statement's Validate reaches Check on each of its expressions and the parser returns the validation error), NOTWRAP (the parser builds a `!` node for every `!` it consumes), FUNCREG (the function-call Check consults both registries and the arity), WHEREBOOL (SELECT and DELETE both type-check the WHERE expression and require a Boolean result), KWFLAGS (PUT forbids `value`, REMOVE forbids `key`/`value`), LISTCOVER(in) (what checkWithIn admits on the right of IN is handled by both executors), MUTSITE(d)+PARSEFIRST (rejection happens before any storage access).",
+		"Completeness and soundness of the operand typing rules themselves are value/type-level facts not decided here.")
+	propTable["C14"].KeyFilter["MUTSITE"] = keyHas("MUTSITE|d|")
+	propTable["C14"].KeyFilter["LISTCOVER"] = keyHas("|in|")
 
-func init() {
+	prop("C15", []string{"PRECTABLE", "ASSOC", "OPMAPS", "KWTABLE", "RENDER"},
+		"Structural necessary conditions of C15: PRECTABLE (Token.Precedence realises the documented binding order, equal within a class, all below unary), ASSOC (every right-operand parse, also through the BETWEEN helper, starts at the consumed operator's precedence + 1; the loop stops below the minimum), OPMAPS (operator spellings and operators are mutually inverse, so canonical rendering re-lexes to the same operator), KWTABLE (keywords and operator words are classified after lower-casing the whole word), RENDER (binary nodes render as (left op right) with the canonical spelling, literals render their text verbatim between quotes).",
+		"The whole-tree print/re-parse fix-point needs parsing.")
+
+	prop("C16", []string{"KWTABLE", "OP2TABLE", "WORDRESET"},
+		"Structural necessary conditions of C16: OP2TABLE (every operator/punctuation token carries the text it stands for and its own offset; two-character operators are recognised from the previous character, which is updated on every iteration; the lexer scans the caller's text unchanged), KWTABLE (words are case-folded as a whole and classified by the table), WORDRESET (the pending-word start/length/offset are re-armed consistently by every arm of the scanner).",
+		"Byte-for-byte preservation of quoted content and full spacing invariance need execution over strings.")
+
+	prop("C17", []string{"POSPROV", "OP2TABLE", "USERIDX"},
+		"Structural necessary conditions of C17: POSPROV (every position given to an error or stored in a node is -1, 0, a token offset or another node's position, never computed; Token.Pos is written only by the lexer), OP2TABLE (token offsets are offsets into the caller's text), USERIDX (the renderer's window slices are bounded by the rendered text's own length and relate the offset to it).",
+		"Caret alignment arithmetic is string arithmetic (DESIGN.md §6).")
+	propTable["C17"].KeyFilter["OP2TABLE"] = keyHas("|query|", "|pos")
+	propTable["C17"].KeyFilter["USERIDX"] = keyHas("outputQueryAndErrPos")
+
+	prop("C18", []string{"PLANMAP", "MUTSITE", "SELECTMINMAX", "ROLECHAIN", "NOREADAFTEREXIT", "NARROWONLYKEY", "ROUTE"},
+		"Structural necessary conditions of C18: PLANMAP (EMPTY reads nothing, MGET uses point reads only and all keys, PREFIX/RANGE use the matching cursor plan, and the chosen access path is not replaced later), MUTSITE(e) (the point-read plan calls only Get, the empty plan nothing), SELECTMINMAX(AND) (a conjunction falls back to the narrower operand), ROLECHAIN (seek to the region start, stop at the first key beyond the inclusive end / without the prefix), NOREADAFTEREXIT (no further cursor read after the region was left), ROUTE/NARROWONLYKEY (equality and IN produce point regions).",
+		"That intersection* returns a region inside both operands depends on order relations among literals (DESIGN.md §6).")
+	propTable["C18"].KeyFilter["MUTSITE"] = keyHas("MUTSITE|e|")
+	propTable["C18"].KeyFilter["SELECTMINMAX"] = keyHas("|AND|")
+
 	prop("C19", []string{"GLOBALS"},
-		"Structural necessary condition of C19 (absence of shared mutable library state): GLOBALS enumerates every package-level variable and shows that no function outside the package initializer and the registration API stores to one, updates or deletes in a map reachable from one, or stores through a shared registry row; NOREFLECT shows the library starts no goroutine and uses no unsafe. Every statement's AST, plan and ExecuteCtx are allocated by its own NewOptimizer/NewExecuteCtx calls, so statements share only read-only tables and the caller's Storage.",
+		"Structural necessary condition of C19 (absence of shared mutable library state): GLOBALS enumerates every package-level variable and shows that no function outside the package initializer and the registration API stores to one, updates or deletes in a map reachable from one, passes one by address to a call, or stores through a shared registry row; NOREFLECT shows the library starts no goroutine and uses no unsafe. Every statement's AST, plan and ExecuteCtx are allocated by its own NewOptimizer/NewExecuteCtx calls, so statements share only read-only tables and the caller's Storage.",
 		"'Each returns exactly the result it returns alone' beyond absence of shared written state needs execution under a scheduler; the caller's Storage is out of scope.")
-}
-
-func init() {
-	propTable["C19"].Rules = []string{"GLOBALS"}
-	prop("TMP-PLANS", []string{"FILTERED", "NOROWDROP", "ADJUSTCALL", "MGETSORT", "GETNIL", "BYTESFRESH", "CACHECOPY"}, "temporary grouping while rules are being built", "")
-}
-
-func init() {
-	prop("TMP-LIMIT", []string{"CONSUMED", "LIMITGATE", "LIMITMAP", "FETCHLOOPEND"}, "temporary grouping while rules are being built", "")
-}
-
-func init() {
-	prop("TMP-WRITERS", []string{"EXECONCE", "WRITEONCE", "PUTKEYFLOW", "DELKEYS", "RMGUARD", "LIMITWRAP"}, "temporary grouping while rules are being built", "")
-}
-
-func init() {
-	prop("TMP-OPT", []string{"PLANMAP", "ROUTE", "NARROWONLYKEY", "SELECTMINMAX", "ROLECHAIN", "NOREADAFTEREXIT"}, "temporary grouping while rules are being built", "")
-}
-
-func init() {
-	prop("TMP-TABLES", []string{"OPMAPS", "PRECTABLE", "ASSOC", "KWTABLE", "OP2TABLE", "POSPROV"}, "temporary grouping while rules are being built", "")
-}
-
-func init() {
-	prop("TMP-VALUES", []string{"ASSERT", "DIVGUARD", "ARITY", "BODYKIND", "LISTCOVER", "PRIMWIRE"}, "temporary grouping while rules are being built", "")
-}
-
-func init() {
-	prop("TMP-AGGR", []string{"ASTIMMUT", "AGGRSEM", "CLONEFRESH", "ROWCLONE", "KEYFRAME", "RESULTIDX"}, "temporary grouping while rules are being built", "")
 }
